@@ -161,3 +161,35 @@ def le(v, n, signed=False):
 
 def pad_to(n, align):
     return b"\x00" * (-n % align)
+
+
+# ------------------------------------------------------------------------------------------------ C706 towers / NDR64 ept_map
+
+
+def ref_floor(proto, lhs, rhs):
+    """C706 appendix L: LHS byte count (2, LE, counts the protocol id octet), protocol id, LHS data, RHS byte count (2, LE), RHS data"""
+    return cat(le(len(lhs) + 1, 2), _b([proto]), lhs, le(len(rhs), 2), rhs)
+
+
+def ref_tower(floors):
+    return cat(le(len(floors), 2), *floors)
+
+
+def ref_ept_map_result(entry_handle, towers, status, max_towers=4):
+    """NDR64 encoding of ept_map's [out] parameters (MS-RPCE 2.2.1.2.5, C706 14.3): entry_handle (20), num_towers (4),
+    conformant-varying array header (max, offset, actual: 8 each), one 8-byte referent per tower, then each tower as a
+    deferred pointee aligned to 8: conformance (8), tower_length (4), octets; finally error_status (4) aligned to 4."""
+    out = [entry_handle, le(len(towers), 4), le(max_towers, 8), le(0, 8), le(len(towers), 8)]
+    pos = 20 + 4 + 24
+    for i in range(len(towers)):
+        out.append(le(i + 3, 8))
+        pos += 8
+    for t in towers:
+        pad = -pos % 8
+        out.append(b"\x00" * pad)
+        pos += pad
+        out += [le(len(t), 8), le(len(t), 4), t]
+        pos += 12 + len(t)
+    pad = -pos % 4
+    out += [b"\x00" * pad, le(status, 4)]
+    return cat(*out)
